@@ -417,3 +417,48 @@ Proof.
   induction H as [|x y l l' Hxy _ IH]; constructor; [|exact IH].
   destruct x, y; cbn [pevent_equiv ev_rel] in *; try contradiction; try exact Hxy. exact I.
 Qed.
+
+(* ---------------------------------------------------------------- what the correspondence compares *)
+(* the outcome of the native handler IS NodeParser run on the events it handed over
+   (`native_events`, the list RecordParser records and harness/c08.py compares) *)
+Section Events.
+  Variable cfg : pconfig.
+  Variable c : conv.
+  Variable u : universe.
+  Variable replay : pconfig -> option cls -> list pevent -> outcome.
+  Variable root : option cls.
+  Local Notation run0 := (run cfg c u replay root init_state).
+
+  Lemma run_snoc evs ev : run0 (evs ++ [ev]) = rbind (run0 evs) (fun st => step cfg c u replay root st ev).
+  Proof.
+    rewrite (run_app cfg c u replay root). destruct (run0 evs) as [st|k]; cbn [rbind run]; [|reflexivity].
+    destruct (step cfg c u replay root st ev); reflexivity.
+  Qed.
+
+  Lemma native_loop_events toks : forall s,
+    run0 (rev (n_out s)) = ROk (n_ps s) ->
+    match native_loop cfg c u replay root s toks with
+    | inl s' => run0 (rev (n_out s')) = ROk (n_ps s')
+    | inr (k, out) => run0 (rev out) = RErr k
+    end.
+  Proof.
+    induction toks as [|t r IH]; intros s Hs; cbn [native_loop]; [exact Hs|].
+    destruct t as [p uri|q a ch|q t tl]; cbn [native_step].
+    - apply IH. cbn [n_out n_ps rev]. rewrite run_snoc, Hs. reflexivity.
+    - destruct (start cfg c u root (n_ps s) q a (merge_parent (n_aux s) (n_pending s))) as [ps'|k] eqn:E.
+      + apply IH. cbn [n_out n_ps rev]. rewrite run_snoc, Hs. cbn [rbind step]. exact E.
+      + cbn [rev]. rewrite run_snoc, Hs. cbn [rbind step]. exact E.
+    - destruct (pend cfg c replay (n_ps s) q t tl) as [ps'|k] eqn:E.
+      + apply IH. cbn [n_out n_ps rev]. rewrite run_snoc, Hs. cbn [rbind step]. exact E.
+      + cbn [rev]. rewrite run_snoc, Hs. cbn [rbind step]. exact E.
+  Qed.
+End Events.
+
+Theorem native_parse_of_events : forall n cfg c u root toks,
+  native_parse_n n cfg c u root toks
+  = finish (run cfg c u (replay_n n c u) root init_state (native_events_n n cfg c u root toks)).
+Proof.
+  intros n cfg c u root toks. unfold native_parse_n, native_events_n.
+  pose proof (native_loop_events cfg c u (replay_n n c u) root toks native_init eq_refl) as H.
+  destruct (native_loop cfg c u (replay_n n c u) root native_init toks) as [s|[k out]]; rewrite H; reflexivity.
+Qed.
